@@ -178,6 +178,12 @@ def split(P, s, sep=None, *rest):
 def startswith(P, s, prefix):
     if not isinstance(prefix, str) or len(prefix) != 1:
         raise Unsupported('startswith on a symbolic string with a non single-character prefix')
+    if isinstance(s, SymStr) and s.segs is None and prefix in '+-':
+        # unparsed input known (on this path) to match one of the numeral patterns, e.g. after a
+        # modular call of decnum_to_fraction: the first character is the sign group (T1)
+        for d in s.parses.values():
+            if not P.feasible(z3.Not(d['matches'])):
+                return simp(d['sign'] == (1 if prefix == '+' else 2))
     segs = _segs(P, s)
     if not _nondigit(prefix, segs):
         raise Unsupported('startswith(digit) on a symbolic string')
